@@ -571,21 +571,20 @@ class Structure(list):
         """
         # handle slice assignment
         if isinstance(idx, slice):
-
-            def _fixlat(a):
-                a.lattice = self.lattice
-                return a
-
             v1 = value
             if copy:
                 keep = set(super(Structure, self).__getitem__(idx))
                 v1 = (a if a in keep else Atom(a) for a in value)
-            vfinal = filter(_fixlat, v1)
+            vfinal = list(v1)
+            super(Structure, self).__setitem__(idx, vfinal)
+            # update lattice only after the list assignment has succeeded
+            for a in vfinal:
+                a.lattice = self.lattice
         # handle scalar assingment
         else:
             vfinal = Atom(value) if copy else value
+            super(Structure, self).__setitem__(idx, vfinal)
             vfinal.lattice = self.lattice
-        super(Structure, self).__setitem__(idx, vfinal)
         return
 
     def __add__(self, other):
